@@ -187,9 +187,12 @@ def run_case(c, rng):
             # 'ALL' is a WNTRSimulator reporting mode (the INP writer cannot express it): give the EPANET run a numeric report step
             wn.options.time.report_timestep = wn.options.time.hydraulic_timestep
             d0 = norm(wn.to_dict())
-        te = simobs.run_epanet(wn)
+        ver = 2.0 if c.index % 3 == 0 else 2.2        # the INP format version is a public argument of EpanetSimulator.run_sim
+        te = simobs.run_epanet(wn, version=ver)
+        if ver == 2.0:
+            c.count('epanet_runs_with_version_2_0')
         if te.exception is None:
-            dict_check('EpanetSimulator run', 'epanet_dict_checks')
+            dict_check('EpanetSimulator run (version=%s)' % ver, 'epanet_dict_checks')
         else:
             c.count('epanet_errors')
     c.nontrivial = nontrivial
